@@ -1,4 +1,4 @@
 Require Extraction.
 Require Import ExtrOcamlBasic.
 From Argot Require Import Model.Back.
-Extraction "back.ml" back back_all no_oracle root next_of key_of ideal_cands closed_runb run_gaps trace_wfb chainb chain_strictb bstepb mkGraph mkConfig mkNode mkSGraph.
+Extraction "back.ml" back back_all no_oracle get_node get_graph is_base_case root next_of key_of ideal_cands closed_runb run_gaps trace_wfb chainb chain_strictb bstepb mkGraph mkConfig mkNode mkSGraph.
